@@ -89,7 +89,7 @@ fn main() {
             match f[0] {
                 "SC" => score::replay(&mut out, &f),
                 "TB" | "TP" | "TG" | "TC" | "PW" | "MG" | "ZK" => tables::replay(&mut out, &f),
-                "BU" | "BP" | "BF" | "BS" | "BB" | "BN" | "BC" => bitboard::replay(&mut out, &f),
+                "BU" | "BP" | "BF" | "BS" | "BB" | "BG" | "BN" | "BC" => bitboard::replay(&mut out, &f),
                 "TX" | "IT" | "TS" | "TM" | "PU" | "PS" | "PF" | "PD" | "PN" => text::replay(&mut out, &f),
                 "AB" | "AS" => abi::run(&mut out, &mut rng, 0),
                 "TR" => tracing::replay(&mut out, &f),
